@@ -17,6 +17,19 @@ CLAIMS = {
         technique="deductive: symbolic execution of the real bodies + z3 (NRA) per obligation",
     ),
 }
+CLAIMS["C19"] = dict(
+    category="proof",
+    text="The real _set_default_options and _set_default_constants are executed on dicts with symbolic key presence (all 2^13 / 2^20 "
+         "subsets of supplied keys at once, every real value): ValueError is raised iff a supplied value leaves its documented "
+         "domain or a supplied pair violates its documented order; otherwise every key is present, typed, in its domain, all "
+         "documented relations hold, supplied values are kept and unsupplied ones equal the documented default / derivation; an "
+         "unknown name yields exactly one RuntimeWarning. ~5000 paths, ~40000 obligations, all discharged.",
+    design_ref="5 C19",
+    note="Supplied numeric values range over the reals (NaN outside the quantifier, N6); REAL float model; the spec tables are "
+         "transcribed from the docstring of minimize (contracts/spec_plain.py, contracts/c19.py); the early history_size/"
+         "filter_size checks of minimize are covered by the minimize unit.",
+    technique="deductive: symbolic-presence dicts + path enumeration of the real validators, z3 (LRA/NIA)",
+)
 NOT_YET = "no check registered yet in this revision (machinery under construction); not claimed"
 NA = {
     "C04": "convergence to the minimiser on reference problems is a whole-run limit property of a floating-point iteration; "
